@@ -2,7 +2,7 @@
 
 Real Solve() runs with refineSolution in {False, True} on objectives whose unconstrained minimum lies
 outside / on the boundary of the box (linear, quadratics centred outside or on a face, corner cones)
-and on the general families.  Clauses (containment is tested EXACTLY, no tolerance):
+and on the general families.  Clauses (containment is tested EXACTLY; only global-phase points of 1-D problems get 4 ulps, see `outside`):
   global-point-in-box    every global-phase evaluation point lies in [lower, upper]
   local-point-in-box     every local-phase (refinement) evaluation point lies in [lower, upper]
   result-in-box          the returned Solution point lies in [lower, upper] (and has N finite coordinates)
@@ -29,12 +29,16 @@ RULE = ("55% boundary objectives (linear, quad with centre outside/on a face, co
         "set; non-trivial if refinement ran and evaluated a point different from its start, or (refine False) >= 3 trials.")
 
 
-def outside(pt, lower, upper):
-    """EXACT containment (no tolerance): the images of the evolvent are cell centres at least side*2^-13 inside the box, far more
-    than the rounding of the affine map for every generated box, and the bounded Nelder-Mead clips to the bounds exactly"""
+def outside(pt, lower, upper, ulps=0):
+    """EXACT containment (ulps = 0): for N >= 2 the images of the evolvent are cell centres at least side*2^-13 inside the box,
+    far more than the rounding of the affine map for every generated box, and the bounded Nelder-Mead clips to the bounds
+    exactly.  For N = 1 there is no grid: the image is the affine map of x in (0,1), and once the search has converged to an end
+    of the segment (x within ~1e-16 of 0 or 1) that map can round ONE ulp beyond the bound - the floating-point rounding of
+    the cube-to-box map that the evolvent properties allow; global-phase points of 1-D problems get `ulps` = 4 of slack."""
     out = []
     for i, (v, lo, up) in enumerate(zip(pt, lower, upper)):
-        if not (lo <= v <= up) or not math.isfinite(v):
+        tol = ulps * math.ulp(max(abs(lo), abs(up)))
+        if not (lo - tol <= v <= up + tol) or not math.isfinite(v):
             out.append({"coordinate": i, "value": v, "lower": lo, "upper": up})
     return out
 
@@ -45,6 +49,14 @@ def check_case(case):
     run = oc.Run(case, cap=40 * max(case["lim"], 16) + 2000)
     err, sol = None, None
     try:
+        if case.get("pre_refine"):
+            # global iterations, a local refinement, MORE global iterations (then Solve, possibly refining again)
+            import contextlib
+            k1, n1, k2 = case["pre_refine"]
+            if run.iterate(k1) and run.glog():
+                with contextlib.redirect_stdout(run.out):
+                    run.solver.DoLocalRefinement(n1)
+                run.iterate(k2)
         sol = run.solve()
     except BaseException as e:                 # noqa
         err = repr(e)
@@ -53,8 +65,9 @@ def check_case(case):
     info["float_collapse"] = bool(run.collapsed)
     lower, upper = case["lower"], case["upper"]
     nbad = 0
+    g_ulps = 4 if case["n"] == 1 else 0
     for j, e in enumerate(run.problem.log):
-        o = outside(e[1], lower, upper)
+        o = outside(e[1], lower, upper, g_ulps if e[0] == "global" else 0)
         if o or len(e[1]) != case["n"]:
             nbad += 1
             if nbad <= 3:
@@ -66,10 +79,14 @@ def check_case(case):
     if sol is None:
         return vs, info
     point, value = oc.best_of(sol)
-    if point is None or len(point) != case["n"] or outside(point, lower, upper):
-        vs.append(oc.violation(PROP, case, "result-in-box", {"point": point, "outside": outside(point or (), lower, upper)}))
+    r_ulps = g_ulps if (point is not None and any(e[1] == point for e in g)) else 0     # the result is a global-phase point
+    if point is None or len(point) != case["n"] or outside(point, lower, upper, r_ulps):
+        vs.append(oc.violation(PROP, case, "result-in-box", {"point": point, "outside": outside(point or (), lower, upper, r_ulps)}))
     if g:
-        gbest = min(e[2] for e in g)
+        # (1-D rounding caveat, see `outside`: a global trial one ulp beyond a bound is clipped back by the bounded refinement; the
+        # refinement is compared with the best global trial that lies exactly inside the box)
+        g_in = [e for e in g if not outside(e[1], lower, upper)] or g
+        gbest = min(e[2] for e in g_in)
         if not (value <= gbest):
             vs.append(oc.violation(PROP, case, "refine-not-worse", {"returned_value": value, "best_global_value": gbest,
                                                                     "returned_point": point}))
@@ -79,8 +96,8 @@ def check_case(case):
         if value != f:
             vs.append(oc.violation(PROP, case, "value-is-objective", {"returned_value": value, "objective_at_point": f,
                                                                       "returned_point": point}))
-    if case["refine"]:
-        if not l or sol.numberOfLocalTrials <= 0:
+    if case["refine"] or case.get("pre_refine"):
+        if case["refine"] and (not l or sol.numberOfLocalTrials <= 0):
             vs.append(oc.violation(PROP, case, "refinement-ran", {"local_calls": len(l), "reported": sol.numberOfLocalTrials}))
     elif l or sol.numberOfLocalTrials != 0:
         vs.append(oc.violation(PROP, case, "refinement-ran", {"local_calls": len(l), "reported": sol.numberOfLocalTrials,
@@ -102,6 +119,9 @@ def gen(r):
     case = oc.gen_case(r, n=n, spec=spec, refine=r.random() < 0.65, lim=r.choice([3, 5, 8, 17, 20, 40, 80, 150, 400]))
     if r.random() < 0.2:
         case["fresh_holder"] = True       # the objective returns a NEW value holder instead of filling in the one it was given
+    if r.random() < 0.12:
+        case["pre_refine"] = [r.choice([2, 5, 15, 40]), r.choice([-1, 3, 10]), r.choice([1, 10, 60, 150])]
+        case["lim"] = max(case["lim"], 40)
     return case
 
 
